@@ -607,7 +607,80 @@ def case_class(fr) -> str:
     return "K_next"
 
 
-def evaluate2(cases):
+
+HEADER2 = """From Coq Require Import List ZArith.
+From Krrood Require Import Base.Sx Eql.RuleSpec Eql.RuleSpec2 Eql.RuleEval Eql.RuleBuild Eql.RuleEval2 Eql.RuleSx2.
+Import ListNotations. Open Scope nat_scope."""
+HEADER2_SPEC = """From Coq Require Import List ZArith.
+From Krrood Require Import Base.Sx Eql.RuleSpec Eql.RuleSpec2.
+Import ListNotations. Open Scope nat_scope.
+Definition selfun (l : list nat) (t : nat) : nat := nth t l 0.
+Definition opt_sx (o : option nat) : sx := match o with Some n => SN n | None => SZ (-1)%Z end.
+Definition spec2_sx (prog : rule) (sels : list nat) (Cs : list (Z * nat)) (Bs : list Z) : sx :=
+  SL (map (fun x => SL [SN (fst (fst x)); opt_sx (snd (fst x)); opt_sx (snd x)]) (rdr2 (selfun sels) prog Cs Bs))."""
+
+
+def rule_term2(r) -> str:
+    """two-variable program: the join is the marker atom (attr 2) at the head of the joining refinement's conditions"""
+    atoms = (["(Atom 2 CEq (RConst 0%Z))"] if r.get("join") else []) + [atom_term(a) for a in r["conds"]]
+    tag = "None" if r["tag"] is None else f"(Some {r['tag']})"
+    body = "[" + "; ".join(f"({KCOQ[k]}, {rule_term2(s)})" for k, s in r["body"]) + "]"
+    return f"(Rule [{'; '.join(atoms)}] {tag} {body})"
+
+
+def sels_term(case) -> str:
+    sel = {}
+
+    def walk(r):
+        if r["tag"] is not None:
+            sel[r["tag"]] = r.get("sel", 0)
+        for _, s in r["body"]:
+            walk(s)
+
+    walk(case["prog"])
+    n = max(sel) + 1 if sel else 0
+    return "[" + "; ".join(str(sel.get(t, 0)) for t in range(n)) + "]"
+
+
+def world2_terms(case):
+    cs = "[" + "; ".join(f"({z(k)}, {pi})" for k, pi in case["cs"]) + "]"
+    bs = "[" + "; ".join(z(a) for a in case["bs"]) + "]"
+    return cs, bs
+
+
+def model2_matches(case, impl, m) -> bool:
+    """implementation rows vs the two-variable model's rows (exact multiset; the model row carries the selected set)"""
+    if m[0] != 0:
+        return impl[0] == 1
+    if impl[0] != 0 or impl[2]:
+        return False
+    sel = {}
+
+    def walk(r):
+        if r["tag"] is not None:
+            sel[r["tag"]] = r.get("sel", 0)
+        for _, s in r["body"]:
+            walk(s)
+
+    walk(case["prog"])
+    pool = [[list(r[0]), r[1], r[2]] for r in m[1]]
+    if len(pool) != len(impl[1]):
+        return False
+    for t, ci, bi in impl[1]:
+        hit = None
+        for r in pool:
+            if t in r[0]:
+                want = {0: (r[1], -1), 1: (-1, r[2]), 2: (r[1], r[2])}[sel.get(t, 0)]
+                if want == (ci, bi):
+                    hit = r
+                    break
+        if hit is None:
+            return False
+        pool.remove(hit)
+    return True
+
+
+def evaluate2_old(cases):
     """two-variable cases: implementation and Spec (no model); returns [(impl, spec instances)]"""
     from . import core
     if not cases:
@@ -617,6 +690,32 @@ def evaluate2(cases):
     vals = core.coq_values(PROP, HEADER_SPEC, [f"spec_sx {rule_term(e['prog'])} {world_term(e['world'])}" for e in enc],
                            chunk=240, tag=f"valstwo{os.getpid()}")
     return [(i, project2(c, s)) for c, i, s in zip(cases, impl, vals)]
+
+
+def evaluate2(cases, model_ok=True):
+    """two-variable cases: implementation, two-variable model (RuleEval2.v) and Spec (RuleSpec2.v); returns [(impl, model or None, spec instances)]"""
+    from . import core
+    if not cases:
+        return []
+    impl = run_impl_bulk(cases)
+    exprs = []
+    for c in cases:
+        pt, st = rule_term2(c["prog"]), sels_term(c)
+        ct, bt = world2_terms(c)
+        if model_ok:
+            exprs += [f"model2_sx {pt} {st} {ct} {bt}", f"spec2_sx {pt} {st} {ct} {bt}"]
+        else:
+            exprs += [f"spec2_sx {pt} {st} {ct} {bt}"]
+    vals = core.coq_values(PROP, HEADER2 if model_ok else HEADER2_SPEC, exprs, chunk=240, tag=f"valstwo{os.getpid()}")
+    out = []
+    for j, c in enumerate(cases):
+        if model_ok:
+            m, sp = vals[2 * j], vals[2 * j + 1]
+        else:
+            m, sp = None, vals[j]
+        want = sorted(list(x) for x in {tuple(r) for r in sp})
+        out.append((impl[j], m, want))
+    return out
 
 
 def dedup2_signature(case, impl, want) -> bool:
@@ -661,8 +760,9 @@ def run(tier: str, seed: int, replay=None) -> int:
         "proved fragment Fx (computed in Coq per case): no next_rule (C08_rules; the construction itself is proved for every program, C08_build_all), "
         "or exactly one next_rule, written last at the top level, possibly with refinements of its own (no alternative/next_rule in its block) and with conclusions of its own (C08_rules_next, C08_rules_next2, up to permutation); "
         "other next_rule programs are compared with the faithful model and the Spec, the class later_ref_next with the model only",
-        "two-variable programs are NOT covered by the Coq model or the theorems: they are compared implementation vs Spec (rdr over the elements (c.k, c.parent.a)); "
-        "a disagreement is a VIOLATION unless it has the narrow signature of the open findings C08-h/i (only missing instances, each built from a body shared by >= 2 connections, in a program that also concludes from the body alone)",
+        "two-variable programs (connection c, body b joined by `b == c.parent` in one refinement) are run through the two-variable model Eql/RuleEval2.v "
+        "(join leaf enumerating the bodies, coverage keyed by the bindings of the conclusion's own variables) and the Spec Eql/RuleSpec2.v "
+        "(rdr over the elements (c.k, c.parent.a), instances projected to the conclusion's variables, compared as a set); three-way like the one-variable stream",
         "one variable over a domain of distinct objects with two int attributes; conditions are and_-chains of comparisons of an "
         "attribute with a constant or another attribute; every conclusion is Add(views, inference(V_tag)(p=x))",
         "an and_-chain of comparators is one leaf of the model: a comparator found bound re-yields the flag it computed for the same element",
@@ -680,7 +780,7 @@ def run(tier: str, seed: int, replay=None) -> int:
                 "non-empty world and a non-empty Spec answer")
     ok_spec, log = core.coq_make(["Base/Sx.vo", "Eql/RuleSpec.vo"])
     rep.oblige("build:spec", ok_spec, "" if ok_spec else core.first_error(log))
-    model_ok = core.standard_proof_steps(rep, PROP, ["Props/C08.vo", "Eql/RuleSx.vo"])
+    model_ok = core.standard_proof_steps(rep, PROP, ["Props/C08.vo", "Eql/RuleSx.vo", "Eql/RuleSx2.vo"])
     from translator import pins
     pins.oblige(rep, str(core.REPO), "rules", "the rule construction / evaluation models (Eql/RuleBuild.v, Eql/RuleEval.v)")
     if not ok_spec:
@@ -805,14 +905,15 @@ def run(tier: str, seed: int, replay=None) -> int:
 
     # ---- two-variable programs: implementation vs Spec only
     try:
-        results2 = evaluate2(cases2)
+        results2 = evaluate2(cases2, model_ok)
     except Exception as e:  # noqa
         rep.oblige("correspondence:evaluate-two-variable", False, str(e)[:600])
         results2 = []
     dist2 = {"cases": len(results2), "refinement_in_refinement": 0, "shared_body": 0, "concl_b_only": 0, "concl_c_and_b": 0,
              "nonempty_spec": 0, "agree": 0}
     inst2 = 0
-    for c, org, (impl, want) in zip(cases2, origin2, results2):
+    model2_bad = []
+    for c, org, (impl, m2, want) in zip(cases2, origin2, results2):
         rep.count("two:" + json.dumps(c, sort_keys=True), bool(want))
         sg = sig_of(c["prog"])
         dist2["refinement_in_refinement"] += 1 if "R{R" in sg or "{R{" in sg else 0
@@ -824,11 +925,16 @@ def run(tier: str, seed: int, replay=None) -> int:
         dist2["nonempty_spec"] += 1 if want else 0
         if spec2_matches(impl, want):
             dist2["agree"] += 1
-        elif "K_dedup2" in open_classes and dedup2_signature(c, impl, want):
+            if m2 is not None and not model2_matches(c, impl, m2):
+                model2_bad.append((c, impl, m2))
+        elif "K_dedup2" in open_classes and dedup2_signature(c, impl, want) and (m2 is None or model2_matches(c, impl, m2)):
             inst2 += 1
         else:
-            bad.append((c, org, impl, None, want, None,
-                        "two-variable program (implementation vs Spec, instances as a set) outside the signature of the open findings C08-h/i"))
+            bad.append((c, org, impl, m2, want, None,
+                        "two-variable program: the instances (as a set) differ from the Spec"))
+    if model_ok:
+        rep.oblige("correspondence:model-two-variable", not model2_bad,
+                   "" if not model2_bad else f"{len(model2_bad)} two-variable cases where impl=spec but the model differs, e.g. {json.dumps(model2_bad[0][0])}")
     rep.extra["two_variable_stream"] = dist2
     inst["K_dedup2"] = inst2
 
@@ -854,7 +960,7 @@ def run(tier: str, seed: int, replay=None) -> int:
         try:
             d = json.loads(wp.read_text())
             if d["case"].get("two"):
-                (impl, want), = evaluate2([d["case"]])
+                (impl, _m2, want), = evaluate2([d["case"]], model_ok)
                 fails = not spec2_matches(impl, want)
                 if f.kind == "open":
                     if fails and dedup2_signature(d["case"], impl, want) and impl == d.get("impl", impl):
